@@ -34,7 +34,11 @@ LineMovesT(q) == LineMovesQ(q)
                  \cup {R(g, d, 12, 16, "c") : g \in Around(T(q.cm, 12)) \cup Around(T(q.wm, 16)), d \in {0, 0 - 4, 0 - 8} \cup {B - v : v \in Around(T(q.lo, B))}}
                  \cup {R(g, 0 - d, B, B, "c") : g \in {T(q.cm, B) - 1, T(q.wm, B) + 1}, d \in LineOffs(q, B)}
                  \cup {R(0 - 20, 0, B, B, "c"), R(0 - 8, 0, B, B, "c"), R(0, 0, B, B, "s")}
-ParamsLineQ == {PR(lo, cm, wm, <<1, 2>>, <<1, 2>>, dv, FALSE) :
+ParamsLineQ == {PR(<<1, 2>>, cm, wm, <<1, 2>>, <<1, 2>>, dv, FALSE) :
+                  cm \in {<<2, 1>>, <<1, 2>>}, wm \in {<<1, 8>>, <<1, 2>>, <<0, 1>>}, dv \in BOOLEAN}
+ParamsLineQH == {q \in ParamsLineQ : ~q.dv}
+ParamsLineQV == {q \in ParamsLineQ : q.dv}
+ParamsLineM == {PR(lo, cm, wm, <<1, 2>>, <<1, 2>>, dv, FALSE) :
                   lo \in {<<1, 2>>, <<1, 4>>}, cm \in {<<2, 1>>, <<1, 2>>}, wm \in {<<1, 8>>, <<1, 2>>, <<0, 1>>}, dv \in BOOLEAN}
 ParamsLineT == {PR(lo, cm, wm, <<1, 2>>, bf, dv, FALSE) :
                   lo \in {<<1, 2>>, <<1, 4>>, <<3, 4>>}, cm \in {<<2, 1>>, <<1, 2>>, <<1, 1>>},
@@ -49,6 +53,8 @@ ParamsExtreme ==
   \cup {[d EXCEPT !.wm = x] : x \in {<<0, 1>>, <<0 - 1, 1>>, <<1000, 1>>}}
   \cup {[d EXCEPT !.lm = x, !.bf = f] : x \in {<<0, 1>>, <<0 - 1, 1>>, <<1000, 1>>}, f \in {<<1, 2>>, None}}
   \cup {[d EXCEPT !.bf = x] : x \in {<<0 - 1, 1>>, <<1, 1>>, <<0, 1>>}}
+\* a small space that takes every action of the machine (vacuity guard, run with -coverage)
+ParamsCover == {[Default(TRUE) EXCEPT !.lm = <<1, 4>>], [Default(TRUE) EXCEPT !.lm = <<1, 4>>, !.bf = None, !.at = TRUE]}
 \* moves for the extremes: a bit of everything, incl. other items, off-page and edge-straddling glyphs
 MixMovesT(q) == {R(g, d, B, B, "c") : g \in {0 - 2, 1, 16, 17}, d \in {0, 5, 9}}
                 \cup {R(2, 2, 4, 4, "c"), R(0 - 6, 2, 4, 4, "c"), R(0, 0, B, B, "s")}
@@ -92,6 +98,7 @@ ParamsSim == {PR(lo, cm, wm, lm, bf, dv, FALSE) :
 SimMoves(q) == LineMovesQ(q) \cup StackMovesQ(q) \cup ColMovesQ(q)
                \cup {D(g, 0, B, B, "c") : g \in {8, 12, 16}} \cup {R(0, 0, B, B, "c"), R(1, 0, B, B, "c"), Other}
 
+CoverMoves(q) == MixMovesQ(q) \cup ColMovesQ(q)
 NoDev == {}
 PageOnly == {"page"}
 PageAndFigure == {"page", "figure"}
